@@ -337,6 +337,9 @@ DIRECTED = [
     # a privileged session does kick; the kicked one leaves no trace
     "a:K;a:H;a:G;s:1:0:x=1;p:1:0:/*/*/*;s:2:0:y=2;p:2:0:/*/*/*&/*/*;k:0:kick:/H/*;s:2:0:y=3;k:0:kick:/*/*;upv:0;k:0:kick:/*/*",
     "a:A;a:H;k:0:addbans:;k:0:rembans:;k:0:kick:/H/1/x;s:1:0:x=1;k:0:kick:/H/1/x",
+    # kicked sessions against the run without them: the two runs create the host nodes, and so mark the sessions, in different orders
+    "a:H;a:G;a:H;a:K;s:0:0:x=1;s:1:0:y=1;s:2:0:z=1;p:1:0:/*/*/*;p:2:0:/*/*/*&/*/*;k:3:kick:/*/*",
+    "a:H;a:G;a:F;a:K;s:0:0:x=1&x/y=2;p:1:0:/*/*/*&/*/*/*/*;p:2:0:/H/*/x;s:2:0:w=1;b:3:k~kick~/G/*+s~0~q=1+k~kick~/*/*/x+k~kick~/F/*;s:3:0:q=2",
     "a:B;a:H;k:0:kick:/*/*;k:0:addbans:;k:0:remreq:",
     # forged session fields in client-to-client Messages; what-codes at the edges of the command range
     "a:H;a:H;a:G;c:0:1234:/*/*:1;c:0:1234::2;c:0:558916399:/*/*:evil;c:0:558916434:/*/*:-;c:0:kick:/*/*:1;s:1:0:x=1&y=2;c:0:77:/*/*/*:1;c:2:77:/H/*:0",
@@ -374,8 +377,12 @@ class CHECK(vlib.Check):
                 "subscription strings are added in total (uint32 counts / int32 deltas of the subscriber tables)",
                 "one spelling per subscription path (as C04): REMOVEPARAMETERS finds a subscription by the parameter name it was made under, "
                 "the model by its path; the generators never unsubscribe a held path through another spelling",
-                "as_if_never_partial only: no session is granted PR_PRIVILEGE_KICK (a privileged kick is a visible effect by design)",
-                "C03: only complete Messages are dispatched, so a cut after any byte prefix is a cut between commands (exercised byte by byte by the harness)",
+                "as_if_never: the session s that is erased is never granted PR_PRIVILEGE_KICK (its kicks would be visible effects by design; "
+                "OTHER sessions may hold the privilege and kick anybody, s included); session names (the server's id strings) are pairwise "
+                "different and none is also a session's host name (xnm_event; KickClientCallback looks the owner of a host node up by name)",
+                "byte_cut_is_command_cut composes with C03's d_prefix_safety (Gw/FrameDefault.v; standard binary gateway, default encoding, "
+                "Messages within max_in and 2^32): a cut after any byte prefix is a cut between two complete commands (also exercised byte by "
+                "byte by the harness); how a flattened Message is parsed is left to C01/C02 (any decode function)",
                 "memory safety and object lifetime of the C++ (observed by ASan/UBSan in the harness only)"]
     rule = ("multi-client histories from random.Random(seed) with hostile commands (absolute paths and wildcards into other subtrees, '..' names, "
             "privileged what-codes without privilege, forged privilege bits and session fields), departures, and as last op a connection cut "
